@@ -934,6 +934,20 @@ dPresetMap(
 	j = k;
     }
     
+    /* Every relaxed supernode must begin at a supernode boundary of H.  This
+       holds for the column etree, but in symmetric mode a supernode of the
+       Cholesky bound may hold several leaves of the etree; the loop below
+       would then step over the later relaxed supernodes and reserve too
+       little space for them.  Split H at those columns. */
+    for (i = 1; i <= pxgstrf_relax[0].size; ++i) {
+	j = pxgstrf_relax[i].fcol;
+	if ( j > 0 && j < n && super_bnd[j] == 0 ) {
+	    for (k = j - 1; super_bnd[k] == 0; --k) ;
+	    super_bnd[j] = k + super_bnd[k] - j;
+	    super_bnd[k] = j - k;
+	}
+    }
+
     for (j = 0; j < n; j += w) {
         if ( Glu->dynamic_snode_bound == NO ) map_in_sup[j] = nextpos;
 
